@@ -144,7 +144,7 @@ def check_pair_bzr(acc, setting, source, target, s, t, label, maxk, expect_cls):
                 aspect, only_a, only_b = diff
                 tp.viol(acc, "%s:optimised!=generic:%s" % (setting, aspect),
                         dict(desc, only_optimised=only_a, only_generic=only_b))
-            acc.outcomes.add(hash(repr([x[1:4] + x[5:] for x in a])))
+            acc.outcomes.add(hash(repr(sorted(repr(x[1:4] + x[5:]) for x in a))))
             # delta laws, for each implementation's own output
             inv = None
             for impl, rows in (("optimised", a), ("generic", b)):
